@@ -5,6 +5,7 @@ import MpireModel.Drive.Dispatch
 import MpireModel.Drive.Misc
 import MpireModel.Drive.Apply
 import MpireModel.Drive.Shutdown
+import MpireModel.Drive.GracefulStop
 /- One line in, one line out. -/
 namespace Mpire.Drive
 
@@ -40,6 +41,7 @@ def handle (line : String) : String :=
       | "aproto"  => handleAProto fs
       | "tworker" => handleTWorker fs
       | "hstop"   => handleHStop fs
+      | "gstop"   => handleGStop fs
       | _ => none
     r.getD "bad-op"
 
